@@ -485,6 +485,9 @@ def flags_in(inp, prefix=None, depth=0, seen=None):
             for a, x in vars(v).items():
                 if isinstance(x, _PLAIN):
                     yield f"{k}.{a}", (v, a, x)
+                elif isinstance(x, (list, tuple)) and all(isinstance(y, _PLAIN) for y in x):
+                    # plain lists (outcome shapes, local outcome counts): compared by value, so snapshot a copy
+                    yield f"{k}.{a}", (v, a, type(x)(x))
 
 
 def arrays_in(v, prefix, depth=0, seen=None):
@@ -665,8 +668,11 @@ def _solve(sp, goals, t0, timeout_s):
 def native_run(contract, Wn, cfg, vals):
     mk = Mk(Wn, env=vals)
     inp = contract.inputs(Wn, cfg, mk)
+    import contextlib
+    import io
     try:
-        out = contract.run(Wn, cfg, inp)
+        with contextlib.redirect_stdout(io.StringIO()):
+            out = contract.run(Wn, cfg, inp)
     except Exception as e:  # noqa
         return Raised(e)
     return out
@@ -678,8 +684,11 @@ def native_clauses(contract, Wn, cfg, vals):
     inp = contract.inputs(Wn, cfg, mk)
     before = {p: a.copy() for p, a in native_arrays(inp)}
     flags_before = dict(flags_in(inp)) if contract.frame else {}
+    import contextlib
+    import io
     try:
-        out = contract.run(Wn, cfg, inp)
+        with contextlib.redirect_stdout(io.StringIO()):        # the library's console warnings are not part of any contract
+            out = contract.run(Wn, cfg, inp)
     except Exception as e:  # noqa
         out = Raised(e)
     res = {}
